@@ -26,7 +26,11 @@ multiplicity <= degree via continuity at knots), `split_bspline` (both halves), 
 functions (A2.3 = `Polynomial.derivative` of the Cox - de Boor polynomials, The NURBS Book (2.7)), of the curve (A3.2) and
 of the rational curve (A4.2, quotient rule), weight scaling, Bezier knots => Bernstein form, `bezier_to_bspline`.
 
-NOT proved: degree elevation (A5.9), `bezier_decomposition` (A5.6), derivatives of order >= 2 (A2.3 is modelled for
+Growth round 2: `degree_elevation` (A5.9) of a single Bezier segment by any `t` (the table `bezalfs`, any degree),
+`bezier_decomposition` (A5.6) modelled and corresponded, global interpolation relative to a linear solver,
+the value of a cubic spline at a double knot and the law of local cubic interpolation, more translated kernels.
+
+NOT proved: degree elevation (A5.9) of multi-segment splines, the curve preservation of `bezier_decomposition` (A5.6), derivatives of order >= 2 (A2.3 is modelled for
 every order and tied by correspondence), interpolation and the conic constructions: the oracle of
 harness/props/c13.py checks them on the real code against exact rationals.
 -/
@@ -39,6 +43,7 @@ import EzdxfVerif.Lemmas.CurveDeriv
 import EzdxfVerif.Lemmas.CurveSplit
 import EzdxfVerif.Lemmas.CurveBezierDeriv
 import EzdxfVerif.Lemmas.CurvePoly
+import EzdxfVerif.Lemmas.CurveElevate
 import Mathlib.Tactic.Ring
 import Mathlib.Tactic.FieldSimp
 import Mathlib.Tactic.Linarith
@@ -90,6 +95,20 @@ theorem surgery_kernels_match_source (knots : List Rat) (cps : List V3) (p i : N
   · simp only [insNewPoint, insNewPointPy]
   · simp only [bezD1Coeff, bezD1CoeffPy]
   · simp only [bezD2Coeff, bezD2CoeffPy]
+
+/-- the kernels of `degree_elevation` (A5.9: the entry `inv * binom(p, j) * binom(t, i - j)` of the table `bezalfs`; the two
+    loop headers, the symmetric copy and `Qw[0] = Pw[0]` are checked textually) and of `bezier_decomposition` (A5.6: the
+    in-place update `bezier_points[k] * alpha + bezier_points[k-1] * (1 - alpha)`; `alphas`, the multiplicity test and the
+    bookkeeping of `next_bezier_points` textually) as translated on this run equal the model -/
+theorem elevation_kernels_match_source (p t i j s : Nat) (alphas : Nat → Rat) (bez : List V3) (k : Nat)
+    (hin : i - t ≤ j ∧ j ≤ min p i) (hk : s ≤ k ∧ k ≤ p) (hkl : k < bez.length) :
+    bezalfsFirst p t i j = bezalfsCoeffPy (choose (p + t) i : Rat) (choose p j : Rat) (choose t (i - j) : Rat) ∧
+    (decompInsertOnce alphas p s bez).getD k V3.zero
+      = decompUpdatePy (alphas (k - s)) (bez.getD k V3.zero) (bez.getD (k - 1) V3.zero) := by
+  constructor
+  · simp only [bezalfsFirst, bezalfsCoeffPy, if_pos hin]
+  · simp only [decompInsertOnce, decompUpdatePy, List.getD_eq_getElem?_getD, List.getElem?_map,
+      List.getElem?_range hkl, Option.map_some, Option.getD_some, if_pos hk]
 
 /-! ## 2. Bezier curves -/
 
@@ -1866,6 +1885,30 @@ theorem evalDerivative_first (knots : List Rat) (cps : List V3) (order : Nat) (u
     funext (fun i => coxDeBoor_eq_spanPiece knots u s hsort (by omega) hs3 hs4 _ i)
   rw [curveRef, hv]
 
+/-- **derivatives of every order** (The NURBS Book (2.9), by induction on the order from `basis_derivative_is_polynomial_derivative`
+    / formula (2.7)): with `N^{(k)}` the `k`-th `Polynomial.derivative` of the Cox - de Boor piece,
+    `N^{(k+1)}_{i,p+1}(u) = (p+1)·( N^{(k)}_{i,p}(u)/(U[i+p+1] − U[i]) − N^{(k)}_{i+1,p}(u)/(U[i+p+2] − U[i+1]) )` for every
+    nondecreasing knot vector, every order `k`, every `u` (`x/0 = 0`); order 0 is the piece itself.  (A2.3 computes the rows
+    `k >= 2` by the equivalent formula (2.10); those rows are modelled and corresponded (X9), their identification with
+    `N^{(k)}` is proved for `k <= 1` only.) -/
+theorem basis_derivative_higher_recurrence (knots : List Rat) (hsort : nondecreasing knots = true) (s p i k : Nat) (u : Rat)
+    (hi : i + p + 2 ≤ knots.length - 1) :
+    (Polynomial.derivative^[0] (Lemmas.Curve.cdbPoly (kget knots) (Lemmas.Curve.delta s) p i)).eval u = spanPiece knots u s p i ∧
+    (Polynomial.derivative^[k + 1] (Lemmas.Curve.cdbPoly (kget knots) (Lemmas.Curve.delta s) (p + 1) i)).eval u
+      = ((p : Rat) + 1) *
+        ((Polynomial.derivative^[k] (Lemmas.Curve.cdbPoly (kget knots) (Lemmas.Curve.delta s) p i)).eval u
+            / (kget knots (i + p + 1) - kget knots i)
+          - (Polynomial.derivative^[k] (Lemmas.Curve.cdbPoly (kget knots) (Lemmas.Curve.delta s) p (i + 1))).eval u
+            / (kget knots (i + p + 2) - kget knots (i + 1))) := by
+  constructor
+  · simp only [Function.iterate_zero, id_eq]
+    rw [Lemmas.Curve.cdbPoly_eval, Lemmas.Curve.spanPiece_eq_cdbF]
+  · have hmono : ∀ a b, a ≤ b → b ≤ knots.length - 1 → kget knots a ≤ kget knots b :=
+      fun a b hab hb => nd_mono knots hsort a b hab (by omega)
+    rw [Lemmas.Curve.cdbPoly_iterate_derivative (kget knots) _ (knots.length - 1) hmono p i k hi]
+    simp only [Polynomial.eval_mul, Polynomial.eval_sub, Polynomial.eval_C]
+    ring
+
 /-- … on the CLOSED domain (both ends included; at `u = U[count]` the one-sided derivative from the left): for every `u` in
     `[U[p], U[count]]` of a spline with non-degenerate domain there is a non-empty span whose closure contains `u` such
     that `Evaluator.derivative(u, 1)` returns the value and the derivative of that polynomial piece -/
@@ -2872,6 +2915,164 @@ theorem bezier_to_bspline_segments (curves : List Bez4) (cps : List V3) (knots :
     rw [(bezier_point_bernstein c d x).1]
     rfl
 
+/-! ## 6f'. `degree_elevation` (A5.9) of a single Bézier segment -/
+
+/-- a spline with Bézier knots `[ua]*n + [ub]*n`, `n = count = order`, is the Bernstein form of its control points -/
+private theorem bezier_knots_eval (cps : List V3) (ua ub u : Rat) (hn : 1 ≤ cps.length) (hab : ua < ub)
+    (hlo : ua ≤ u) (hhi : u < ub) :
+    evalPoint (List.replicate cps.length ua ++ List.replicate cps.length ub) [] cps cps.length u
+      = some (bernsteinCurve cps ((u - ua) / (ub - ua))) := by
+  have hg : ∀ j, j < cps.length + cps.length →
+      kget (List.replicate cps.length ua ++ List.replicate cps.length ub) j = if j < cps.length then ua else ub := by
+    intro j hj
+    rw [Lemmas.Curve.kget_eq, List.getElem?_append, List.length_replicate]
+    by_cases c : j < cps.length
+    · rw [if_pos c, if_pos c, List.getElem?_replicate, if_pos c]; rfl
+    · rw [if_neg c, if_neg c, List.getElem?_replicate, if_pos (by omega)]; rfl
+  have hsort : nondecreasing (List.replicate cps.length ua ++ List.replicate cps.length ub) = true := by
+    apply Lemmas.Curve.nd_of_step
+    intro i hi
+    simp only [List.length_append, List.length_replicate] at hi
+    rw [hg i (by omega), hg (i + 1) hi]
+    by_cases c1 : i + 1 < cps.length
+    · rw [if_pos (by omega), if_pos c1]
+    · rw [if_neg c1]
+      split
+      · exact le_of_lt hab
+      · exact le_refl _
+  have h := bspline_bezier_segment (List.replicate cps.length ua ++ List.replicate cps.length ub) cps cps.length
+    (cps.length - 1) ua ub u hsort hn (le_refl _) (by simp) (le_refl _) (by omega)
+    (by rw [hg _ (by omega), if_pos (by omega)])
+    (by rw [hg _ (by omega), if_neg (by omega)])
+    (fun j h1 h2 => ⟨by rw [hg _ (by omega), if_pos (by omega)], by rw [hg _ (by omega), if_neg (by omega)]⟩)
+    hab hlo hhi
+  rw [h]
+  have e1 : cps.length - 1 + 1 - cps.length = 0 := by omega
+  rw [e1, List.drop_zero, List.take_length]
+
+/-- **degree elevation of a Bézier segment** (A5.9 on a spline with `count = order`; the coefficient table `bezalfs` with
+    its two loop nests, any degree `p`, elevation by any `t >= 0`): the `p + t + 1` new control points have the same
+    Bernstein curve, the new knots are `[ua]*(p+t+1) + [ub]*(p+t+1)`, and `Evaluator.point` of the elevated spline equals
+    `Evaluator.point` of the original on `[ua, ub)` -/
+theorem degree_elevation_bezier_segment (bpts : List V3) (t : Nat) (ua ub x : Rat) (hn : 1 ≤ bpts.length) :
+    (elevateBezier bpts t ua ub).1.length = bpts.length + t ∧
+    (elevateBezier bpts t ua ub).2
+      = List.replicate (bpts.length + t) ua ++ List.replicate (bpts.length + t) ub ∧
+    bernsteinCurve (elevateBezier bpts t ua ub).1 x = bernsteinCurve bpts x ∧
+    (ua < ub → ua ≤ x → x < ub →
+      evalPoint (elevateBezier bpts t ua ub).2 [] (elevateBezier bpts t ua ub).1 (bpts.length + t) x
+        = evalPoint (List.replicate bpts.length ua ++ List.replicate bpts.length ub) [] bpts bpts.length x) := by
+  have hlen : (elevateBezier bpts t ua ub).1.length = bpts.length + t := by
+    simp only [elevateBezier, List.length_cons, List.length_map, List.length_range']; omega
+  have hk : (elevateBezier bpts t ua ub).2
+      = List.replicate (bpts.length + t) ua ++ List.replicate (bpts.length + t) ub := by
+    simp only [elevateBezier]
+    have e : bpts.length - 1 + t + 1 = bpts.length + t := by omega
+    rw [e]
+  have hcurve : ∀ y : Rat, bernsteinCurve (elevateBezier bpts t ua ub).1 y = bernsteinCurve bpts y := by
+    intro y
+    have key : ∀ (π : V3 → Rat), π V3.zero = 0 → (∀ a b, π (a.add b) = π a + π b) → (∀ a s, π (a.scale s) = π a * s) →
+        π (bernsteinCurve (elevateBezier bpts t ua ub).1 y) = π (bernsteinCurve bpts y) := by
+      intro π hz ha hs
+      rw [Lemmas.Curve.bernsteinCurve_proj π hz ha hs _ (by omega), Lemmas.Curve.bernsteinCurve_proj π hz ha hs bpts hn, hlen]
+      have e : bpts.length + t - 1 = bpts.length - 1 + t := by omega
+      rw [e, ← Lemmas.Curve.bz_elevate (bpts.length - 1) t (fun i => π (bpts.getD i V3.zero)) y]
+      apply Lemmas.Curve.bz_congr
+      intro i hi
+      have e2 : bpts.length - 1 + 1 = bpts.length := by omega
+      rw [e2]
+      have hrow : ∀ i', i' ≤ bpts.length - 1 + t →
+          π (curveSum (bezalfs (bpts.length - 1) t i') 0 bpts)
+            = Lemmas.Curve.wsum bpts.length (fun j => Lemmas.Curve.elevCoeff (bpts.length - 1) t i' j * π (bpts.getD j V3.zero)) := by
+        intro i' hi'
+        rw [Lemmas.Curve.curveSum_proj π hz ha hs]
+        apply Lemmas.Curve.wsum_congr
+        intro j _
+        rw [Nat.zero_add, Lemmas.Curve.bezalfs_closed _ _ _ _ hi']; ring
+      cases i with
+      | zero =>
+        simp only [elevateBezier, List.getD_cons_zero]
+        rw [Lemmas.Curve.wsum_single bpts.length _ 0 (by omega) (fun j _ hj => by
+          simp only [Lemmas.Curve.elevCoeff]
+          rw [if_neg (by omega)]; ring)]
+        simp [Lemmas.Curve.elevCoeff, Lemmas.Curve.choose_zero_right]
+      | succ i =>
+        simp only [elevateBezier, List.getD_cons_succ]
+        rw [List.getD_eq_getElem?_getD, List.getElem?_map, List.getElem?_range' (by omega)]
+        simp only [Option.map_some, Option.getD_some, Nat.one_mul]
+        have e3 : 1 + i = i + 1 := by omega
+        rw [e3]
+        exact hrow (i + 1) hi
+    apply v3ext
+    · exact key V3.x rfl (fun _ _ => rfl) (fun _ _ => rfl)
+    · exact key V3.y rfl (fun _ _ => rfl) (fun _ _ => rfl)
+    · exact key V3.z rfl (fun _ _ => rfl) (fun _ _ => rfl)
+  refine ⟨hlen, hk, hcurve x, ?_⟩
+  intro hab hlo hhi
+  have h1 := bezier_knots_eval (elevateBezier bpts t ua ub).1 ua ub x (by omega) hab hlo hhi
+  rw [hlen] at h1
+  rw [hk, h1, bezier_knots_eval bpts ua ub x hn hab hlo hhi, hcurve]
+
+private theorem decompAdvance_all (knots : List Rat) (m : Nat) : ∀ (fuel b : Nat), b ≤ m → m - b ≤ fuel →
+    (∀ j, b ≤ j → j < m → kget knots (j + 1) = kget knots j) → decompAdvance knots m fuel b = m
+  | 0, b, h1, h2, _ => by simp only [decompAdvance]; omega
+  | fuel + 1, b, h1, h2, h => by
+    simp only [decompAdvance]
+    by_cases c : b < m
+    · rw [if_pos ⟨c, h b (le_refl _) c⟩]
+      exact decompAdvance_all knots m fuel (b + 1) (by omega) (by omega) (fun j hj1 hj2 => h j (by omega) hj2)
+    · rw [if_neg (fun hh => c hh.1)]; omega
+
+/-- `bezier_decomposition` (A5.6 as coded) of a spline that is ONE Bézier segment (`count = order`, knots
+    `[ua]*n + [ub]*n`): the loop makes one pass without knot insertion and yields exactly the control points, which are the
+    Bernstein form of the curve (`default_bspline_is_bezier` / `bspline_bezier_segment`); any degree >= 1 -/
+theorem bezier_decomposition_single_segment (cps : List V3) (ua ub u : Rat) (hn : 2 ≤ cps.length) (hab : ua < ub)
+    (hlo : ua ≤ u) (hhi : u < ub) :
+    bezierDecomposition (List.replicate cps.length ua ++ List.replicate cps.length ub) [] cps cps.length = .ok [cps] ∧
+    evalPoint (List.replicate cps.length ua ++ List.replicate cps.length ub) [] cps cps.length u
+      = some (bernsteinCurve cps ((u - ua) / (ub - ua))) := by
+  refine ⟨?_, bezier_knots_eval cps ua ub u (by omega) hab hlo hhi⟩
+  have hg : ∀ j, j < cps.length + cps.length →
+      kget (List.replicate cps.length ua ++ List.replicate cps.length ub) j = if j < cps.length then ua else ub := by
+    intro j hj
+    rw [Lemmas.Curve.kget_eq, List.getElem?_append, List.length_replicate]
+    by_cases c : j < cps.length
+    · rw [if_pos c, if_pos c, List.getElem?_replicate, if_pos c]; rfl
+    · rw [if_neg c, if_neg c, List.getElem?_replicate, if_pos (by omega)]; rfl
+  have hclamp : ((List.replicate cps.length ua ++ List.replicate cps.length ub).take cps.length).all
+        (· = kget (List.replicate cps.length ua ++ List.replicate cps.length ub) 0) = true ∧
+      (((List.replicate cps.length ua ++ List.replicate cps.length ub).drop
+        ((List.replicate cps.length ua ++ List.replicate cps.length ub).length - cps.length)).all
+        (· = (List.replicate cps.length ua ++ List.replicate cps.length ub).getLastD 0)) = true := by
+    constructor
+    · rw [hg 0 (by omega), if_pos (by omega)]
+      have : (List.replicate cps.length ua ++ List.replicate cps.length ub).take cps.length = List.replicate cps.length ua := by
+        rw [List.take_append_of_le_length (by simp)]; simp
+      rw [this]; simp
+    · rw [Lemmas.Curve.getLastD_eq_kget]
+      simp only [List.length_append, List.length_replicate]
+      rw [hg _ (by omega), if_neg (by omega)]
+      have e : cps.length + cps.length - cps.length = cps.length := by omega
+      rw [e]
+      have : (List.replicate cps.length ua ++ List.replicate cps.length ub).drop cps.length = List.replicate cps.length ub := by
+        simp
+      rw [this]; simp
+  unfold bezierDecomposition
+  simp only [List.isEmpty_nil, not_true_eq_false, if_false, hclamp.1, hclamp.2, Bool.and_self]
+  have em : cps.length - 1 + (cps.length - 1) + 1 = 2 * cps.length - 1 := by omega
+  simp only [em]
+  simp only [decompLoop]
+  have hb0 : cps.length - 1 + 1 < 2 * cps.length - 1 := by omega
+  have hadv : decompAdvance (List.replicate cps.length ua ++ List.replicate cps.length ub) (2 * cps.length - 1)
+      (2 * cps.length - 1 + 1) (cps.length - 1 + 1) = 2 * cps.length - 1 :=
+    decompAdvance_all _ _ _ _ (by omega) (by omega) (fun j h1 h2 => by
+      rw [hg _ (by omega), hg _ (by omega), if_neg (by omega), if_neg (by omega)])
+  simp only [hb0, not_true_eq_false, if_false, hadv, lt_irrefl, decide_false, Bool.false_eq_true]
+  rw [if_neg (by omega)]
+  simp only [Except.ok.injEq, List.cons.injEq, and_true]
+  have : cps.length - 1 + 1 = cps.length := by omega
+  rw [this, List.take_length]
+
 /-! ## 6g. rational knot insertion (`BSpline._insert_knot_rational`): homogeneous coordinates -/
 
 private theorem combine_zipWith_mul : ∀ (N ws : List Rat) (pts : List V3),
@@ -3544,6 +3745,145 @@ theorem basis_vector_collocation (knots weights : List Rat) (cps : List V3) (ord
     rw [combine_zero_suffix, combine_zero_prefix]
     congr 2; omega
 
+private theorem interp_core (fit : List V3) (p : Nat)
+    (tvec : List Rat) (P : List V3) (K : List Rat) (rows : List (List Rat))
+    (hrows : tvec.mapM (fun t => basisVector K [] (p + 1) fit.length t) = some rows)
+    (hlen : P.length = fit.length)
+    (hsol : ∀ k row, rows[k]? = some row → combine row P = fit.getD k V3.zero) :
+    ∀ k t, tvec[k]? = some t → evalPoint K [] P (p + 1) t = some (fit.getD k V3.zero) := by
+  intro k t hk
+  obtain ⟨hl, hr⟩ := Lemmas.Curve.mapM_some _ _ _ hrows
+  have hkl : k < tvec.length := by
+    by_contra hc
+    rw [List.getElem?_eq_none (not_lt.mp hc)] at hk
+    exact absurd hk (by simp)
+  have hrow := hr k hkl
+  rw [hk, Option.bind_some] at hrow
+  have hkr : k < rows.length := by omega
+  rw [List.getElem?_eq_getElem hkr] at hrow
+  have hspan : ∃ span : Nat, findSpan K (p + 1) P.length t = (span : Int) := by
+    rw [hlen]
+    unfold basisVector at hrow
+    split at hrow
+    · rename_i span hfs; exact ⟨span, hfs⟩
+    · exact absurd hrow (by simp)
+  obtain ⟨span, hfs⟩ := hspan
+  rw [basis_vector_collocation K [] P (p + 1) t (by omega) span hfs, hlen, hrow]
+  simp only [Option.map_some, Option.some.injEq]
+  exact hsol k _ (List.getElem?_eq_getElem hkr)
+
+/-- **global interpolation passes through the fit points**, relative to the linear solver: whatever
+    `unconstrained_global_bspline_interpolation` gets back from the solver — if it has one control point per fit point and
+    solves the collocation system it was given (`row_k · P = Q_k` for every row, i.e. `A x = b`) — the resulting spline
+    satisfies `Evaluator.point(t_k) = Q_k` for every parameter `t_k` of the parametrisation vector; any degree, any
+    parametrisation (uniform, chord, centripetal: the `t_k` are inputs), averaged knots -/
+theorem interpolation_passes_through_fit_points (solve : List (List Rat) → List V3 → List V3) (fit : List V3) (p : Nat)
+    (tvec : List Rat) (P : List V3) (K : List Rat)
+    (h : globalInterpolation solve fit p tvec = some (P, K))
+    (hlen : P.length = fit.length)
+    (hsol : ∀ rows, P = solve rows fit → ∀ k row, rows[k]? = some row → combine row P = fit.getD k V3.zero) :
+    K = averagedKnotsUnconstrained (fit.length - 1) p tvec ∧
+    ∀ k t, tvec[k]? = some t → evalPoint K [] P (p + 1) t = some (fit.getD k V3.zero) := by
+  unfold globalInterpolation at h
+  simp only at h
+  split at h
+  · exact absurd h (by simp)
+  · rename_i rows hrows
+    simp only [Option.some.injEq, Prod.mk.injEq] at h
+    obtain ⟨hP, hK⟩ := h
+    refine ⟨hK.symm, ?_⟩
+    rw [hK] at hrows
+    exact interp_core fit p tvec P K rows hrows hlen (hsol rows hP.symm)
+
+/-! ## 6j. local cubic interpolation: the value of a cubic spline at a double knot -/
+
+/-- a cubic B-spline at a DOUBLE knot `τ = U[s-1] = U[s] < U[s+1]`: `point(τ)` is the weighted mean of the two control points
+    `P[s-3]`, `P[s-2]` with weights `(U[s+1] − τ)`, `(τ − U[s-2])` -/
+theorem cubic_double_knot_value (knots : List Rat) (cps : List V3) (s : Nat)
+    (hsort : nondecreasing knots = true) (hoc : 4 ≤ cps.length) (hl : knots.length = 4 + cps.length)
+    (hs3 : 3 ≤ s) (hsc : s < cps.length) (hd : kget knots (s - 1) = kget knots s) (hlt : kget knots s < kget knots (s + 1)) :
+    evalPoint knots [] cps 4 (kget knots s)
+      = some (((cps.getD (s - 3) V3.zero).scale ((kget knots (s + 1) - kget knots s) / (kget knots (s + 1) - kget knots (s - 2)))).add
+          ((cps.getD (s - 2) V3.zero).scale ((kget knots s - kget knots (s - 2)) / (kget knots (s + 1) - kget knots (s - 2))))) := by
+  have hKp : kget knots 3 ≤ kget knots s := nd_mono knots hsort _ _ hs3 (by omega)
+  have hKc : kget knots s < kget knots cps.length :=
+    lt_of_lt_of_le hlt (nd_mono knots hsort _ _ (by omega) (by omega))
+  obtain ⟨s0, hfs, g1, g2, g3, g4⟩ := findSpan_spec_interior knots 4 cps.length (kget knots s) hsort (by omega) hoc hl hKp hKc
+  have hss : s0 = s := span_unique knots hsort _ s0 s g3 g4 (le_refl _) hlt (by omega) (by omega)
+  subst hss
+  rw [evalPoint_of_span knots cps 4 _ s0 hfs hsort (by omega) g1 g2 hl hlt]
+  congr 1
+  -- the pieces at the knot
+  have hr := Lemmas.Curve.cdbF_right_at_knot (kget knots) (kget knots s0) (s0 - 2) 2
+    (fun j h1 h2 => by
+      have : j = 1 ∨ j = 2 := by omega
+      rcases this with rfl | rfl
+      · rw [show s0 - 2 + 1 = s0 - 1 by omega]; exact hd
+      · rw [show s0 - 2 + 2 = s0 by omega])
+    (by rw [show s0 - 2 + 2 + 1 = s0 + 1 by omega]; exact ne_of_gt hlt) 2 (le_refl _)
+  rw [show s0 - 2 + 2 = s0 by omega] at hr
+  have hpiece : ∀ i, spanPiece knots (kget knots s0) s0 3 i =
+      if i = s0 - 3 then (kget knots (s0 + 1) - kget knots s0) / (kget knots (s0 + 1) - kget knots (s0 - 2))
+      else if i = s0 - 2 then (kget knots s0 - kget knots (s0 - 2)) / (kget knots (s0 + 1) - kget knots (s0 - 2)) else 0 := by
+    intro i
+    rw [Lemmas.Curve.spanPiece_eq_cdbF]
+    show Lemmas.Curve.cdbF (kget knots) (kget knots s0) (Lemmas.Curve.delta s0) (2 + 1) i = _
+    rw [Lemmas.Curve.cdbF, hr i, hr (i + 1)]
+    simp only [Lemmas.Curve.delta]
+    by_cases c1 : i = s0 - 3
+    · subst c1
+      rw [if_pos rfl, if_neg (by omega : ¬ s0 - 3 = s0 - 2), if_pos (by omega : s0 - 3 + 1 = s0 - 2)]
+      rw [show s0 - 3 + 2 + 2 = s0 + 1 by omega, show s0 - 3 + 1 = s0 - 2 by omega]; ring
+    · rw [if_neg c1]
+      by_cases c2 : i = s0 - 2
+      · subst c2
+        rw [if_pos rfl, if_pos rfl, if_neg (by omega : ¬ s0 - 2 + 1 = s0 - 2)]
+        rw [show s0 - 2 + 2 + 1 = s0 + 1 by omega]; ring
+      · rw [if_neg c2, if_neg c2, if_neg (by omega : ¬ i + 1 = s0 - 2)]; ring
+  have key : ∀ (π : V3 → Rat), π V3.zero = 0 → (∀ a b, π (a.add b) = π a + π b) → (∀ a s, π (a.scale s) = π a * s) →
+      π (curveSum (spanPiece knots (kget knots s0) s0 3) 0 cps) = π (((cps.getD (s0 - 3) V3.zero).scale
+        ((kget knots (s0 + 1) - kget knots s0) / (kget knots (s0 + 1) - kget knots (s0 - 2)))).add
+        ((cps.getD (s0 - 2) V3.zero).scale ((kget knots s0 - kget knots (s0 - 2)) / (kget knots (s0 + 1) - kget knots (s0 - 2))))) := by
+    intro π hz ha hs
+    rw [Lemmas.Curve.curveSum_proj π hz ha hs, ha, hs, hs]
+    rw [Lemmas.Curve.wsum_two cps.length _ (s0 - 3) (s0 - 2) (by omega) (by omega) (by omega)
+      (fun j _ c1 c2 => by rw [Nat.zero_add, hpiece j, if_neg c1, if_neg c2]; ring)]
+    rw [Nat.zero_add, Nat.zero_add, hpiece, hpiece, if_pos rfl, if_neg (by omega), if_pos rfl]
+  apply v3ext
+  · exact key V3.x rfl (fun _ _ => rfl) (fun _ _ => rfl)
+  · exact key V3.y rfl (fun _ _ => rfl) (fun _ _ => rfl)
+  · exact key V3.z rfl (fun _ _ => rfl) (fun _ _ => rfl)
+
+/-- **the law behind `local_cubic_bspline_interpolation_from_tangents`** (The NURBS Book 9.3.4; seeded change C13-m4): the
+    function puts `p2 = f − α₀·t/3` and `p1 = f + α₁·t/3` around every inner fit point `f` (tangent `t`) and spaces the
+    double knots by `d = 3·|p1 − p0| = |α|·|t|`.  At the double knot the spline takes the value
+    `f + t·(d₀·α₁ − d₁·α₀)/(3(d₀ + d₁))`; it passes through `f` when `d₀·α₁ = d₁·α₀`, which for `d = |α|` (unit
+    tangents) means: the two `α` have the SAME SIGN — the positive root of `a·α² + b·α + c = 0` (`a > 0`, `c < 0`) has to
+    be taken on every segment -/
+theorem local_cubic_junction (knots : List Rat) (cps : List V3) (s : Nat) (f t : V3) (a0 a1 : Rat)
+    (hsort : nondecreasing knots = true) (hoc : 4 ≤ cps.length) (hl : knots.length = 4 + cps.length)
+    (hs3 : 3 ≤ s) (hsc : s < cps.length) (hd : kget knots (s - 1) = kget knots s) (hlt : kget knots s < kget knots (s + 1))
+    (hp2 : cps.getD (s - 3) V3.zero = f.sub (t.scale (a0 / 3))) (hp1 : cps.getD (s - 2) V3.zero = f.add (t.scale (a1 / 3))) :
+    let d0 := kget knots s - kget knots (s - 2)
+    let d1 := kget knots (s + 1) - kget knots s
+    evalPoint knots [] cps 4 (kget knots s) = some (f.add (t.scale ((d0 * a1 - d1 * a0) / (3 * (d0 + d1))))) ∧
+    (d0 * a1 = d1 * a0 → evalPoint knots [] cps 4 (kget knots s) = some f) := by
+  intro d0 d1
+  have hden : kget knots (s + 1) - kget knots (s - 2) ≠ 0 := by
+    have := nd_mono knots hsort (s - 2) s (by omega) (by omega)
+    intro h0; linarith
+  have hval : evalPoint knots [] cps 4 (kget knots s) = some (f.add (t.scale ((d0 * a1 - d1 * a0) / (3 * (d0 + d1))))) := by
+    rw [cubic_double_knot_value knots cps s hsort hoc hl hs3 hsc hd hlt, hp2, hp1]
+    congr 1
+    have hsum : d0 + d1 = kget knots (s + 1) - kget knots (s - 2) := by simp only [d0, d1]; ring
+    have hden' : d0 + d1 ≠ 0 := by rw [hsum]; exact hden
+    apply v3ext <;> simp only [V3.add, V3.sub, V3.scale] <;> rw [← hsum] <;> field_simp <;> simp only [d0, d1] <;> ring
+  refine ⟨hval, ?_⟩
+  intro heq
+  rw [hval, heq, sub_self, zero_div]
+  congr 1
+  apply v3ext <;> simp [V3.add, V3.scale]
+
 /-! ## 6h. rational first derivative (A4.2): the quotient rule -/
 
 /-- **NURBS first derivative** (`Evaluator.derivative(u, 1)` with weights, A3.2 + A4.2 as coded): with
@@ -3642,6 +3982,23 @@ example : nondecreasing [0, 0, 0, 1, 2, 2, 2] = true ∧ nondecreasing [0, 1, 2,
 #guard bulgeCenter 0 0 2 0 1 == (1, 0) && bulgeRadiusSq 0 0 2 0 1 == 1 && bulgeApex 0 0 2 0 1 == (1, -1)
 #guard (insertKnot [0, 0, 0, 1, 2, 2, 2] [⟨0, 0, 0⟩, ⟨1, 2, 0⟩, ⟨3, 2, 0⟩, ⟨4, 0, 0⟩] 3 (1 / 2)).toOption.isSome
 
+
+/-! ### growth round 2: degree elevation of a Bezier segment, decomposition model, interpolation, double knots -/
+-- degree_elevation by 2 of a cubic segment: 6 control points, same curve
+#guard (elevateBezier [⟨0, 0, 0⟩, ⟨1, 2, 0⟩, ⟨3, 2, 0⟩, ⟨4, 0, 0⟩] 2 0 1).1
+  == [⟨0, 0, 0⟩, ⟨3 / 5, 6 / 5, 0⟩, ⟨3 / 2, 9 / 5, 0⟩, ⟨5 / 2, 9 / 5, 0⟩, ⟨17 / 5, 6 / 5, 0⟩, ⟨4, 0, 0⟩]
+#guard bernsteinCurve (elevateBezier [⟨0, 0, 0⟩, ⟨1, 2, 0⟩, ⟨3, 2, 0⟩, ⟨4, 0, 0⟩] 2 0 1).1 (1 / 3)
+  == bernsteinCurve [⟨0, 0, 0⟩, ⟨1, 2, 0⟩, ⟨3, 2, 0⟩, ⟨4, 0, 0⟩] (1 / 3)
+-- bezier_decomposition (A5.6) of a quadratic spline with one simple interior knot: two segments
+#guard (bezierDecomposition [0, 0, 0, 1, 2, 2, 2] [] [⟨0, 0, 0⟩, ⟨1, 2, 0⟩, ⟨3, 2, 0⟩, ⟨4, 0, 0⟩] 3).toOption
+  == some [[⟨0, 0, 0⟩, ⟨1, 2, 0⟩, ⟨2, 2, 0⟩], [⟨2, 2, 0⟩, ⟨3, 2, 0⟩, ⟨4, 0, 0⟩]]
+-- a cubic spline at the double knot 1: the mean of P[2] = (2,1) and P[3] = (4,1) (equal spacing)
+#guard evalPoint [0, 0, 0, 0, 1, 1, 2, 2, 2, 2] [] [⟨0, 0, 0⟩, ⟨1, 0, 0⟩, ⟨2, 1, 0⟩, ⟨4, 1, 0⟩, ⟨5, 0, 0⟩, ⟨6, 0, 0⟩] 4 1 == some ⟨3, 1, 0⟩
+-- parametrisation and averaged knots
+#guard normalizeDistances [1, 2, 1] == [0, 1 / 4, 3 / 4, 1] && averagedKnotsUnconstrained 4 2 [0, 1 / 4, 1 / 2, 3 / 4, 1] == [0, 0, 0, 3 / 8, 5 / 8, 1, 1, 1]
+-- interpolation with a solver that returns the control points of a known spline: the identity rows at t = 0, 1 of a segment
+#guard (globalInterpolation (fun _ rhs => rhs) [⟨0, 0, 0⟩, ⟨1, 1, 0⟩] 1 [0, 1]).map (fun r => (r.2, evalPoint r.2 [] r.1 2 0))
+  == some ([0, 0, 1, 1], some ⟨0, 0, 0⟩)
 
 /-! ### session 3: knot insertion, refinement, reversal, continuity, Bezier subdivision -/
 -- insert_knot: hypotheses met (t = 1/2 < U[count] = 2), the result is a 5-point spline over the same domain, same point at u = 5/4
